@@ -98,7 +98,8 @@ def grid_flag_invariant(c):
     """representation invariant of the observation branch selector: after ANY assignment to grid_sol or grid_obs, from ANY earlier
     state satisfying it, grids_equal == (the two grids coincide, a missing grid counting as coinciding).  The setters read nothing
     but the two grids, so the invariant extends to every assignment history; observe() then selects by the current grids."""
-    g3 = np.linspace(0, 1, 3); palette = dict(none=None, g3=g3, g3copy=g3.copy(), g3other=np.array([0.0, 0.4, 1.0]), g5=np.linspace(0, 1, 5))
+    g3 = np.linspace(0, 1, 3); palette = dict(none=None, g3=g3, g3copy=g3.copy(), g3other=np.array([0.0, 0.4, 1.0]), g5=np.linspace(0, 1, 5),
+                   g3near=g3 + 4e-9, g3rescaled=g3 * (1 + 5e-6))        # within numpy's default closeness tolerances of g3, but other nodes
     def coincide(a, b): return a is None or b is None or (len(a) == len(b) and bool(np.all(np.asarray(a) == np.asarray(b))))
     A, f, _ = _form(c, 3)
     for ns, gs in palette.items():
